@@ -100,6 +100,35 @@ Theorem C14_oov_rate_counts_any_oov_value : forall oovs masked,
      map (fun t => if negb (mem t masked) && mem t oovs then 1 else 0) targets).
 Proof. exact oov_any_value. Qed.
 
+(* the functions TRANSLATED on this run from the evaluate_example bodies (and
+   get_target_weight) of fedjax/core/metrics.py -- the ones the correspondence
+   evaluates -- are exactly the specification functions m_* the theorems are about *)
+Theorem C14_translated_metrics_are_model :
+  (forall T ms, gen_get_target_weight T ms = weights ms T) /\
+  (forall t p ce, gen_cross_entropy t p ce = m_cross_entropy ce) /\
+  (forall t s, gen_accuracy t s = m_accuracy s t) /\
+  (forall k t s, gen_topk k t s = m_topk k s t) /\
+  (forall masked pp T P ce, gen_seq_token_ce masked pp T P ce = m_seq_token_ce masked pp T ce) /\
+  (forall masked T P ce, gen_seq_ce masked T P ce = m_seq_ce masked T ce) /\
+  (forall masked lm pp T P, gen_seq_token_acc masked lm pp T P = m_seq_token_acc masked lm pp T P) /\
+  (forall k masked lm pp T P, gen_seq_token_topk k masked lm pp T P = m_seq_token_topk k masked lm pp T P) /\
+  (forall masked T, gen_seq_token_count masked T = m_seq_token_count masked T) /\
+  (forall masked T, gen_seq_count masked T = m_seq_count masked T) /\
+  (forall eos masked T, gen_seq_trunc eos masked T = m_seq_trunc eos masked T) /\
+  (forall oovs masked pp T, gen_seq_oov oovs masked pp T = m_seq_oov oovs masked pp T) /\
+  (forall masked T, gen_seq_length masked T = m_seq_length masked T) /\
+  (forall nc t s, gen_confusion nc t s = m_confusion nc s t) /\
+  (forall c, eval_base c = eval_base_spec c) /\
+  (forall (A : Type) nd dom (zero x : A), gen_per_domain nd dom zero x = per_domain nd dom zero x).
+Proof. exact translated_metrics_are_model. Qed.
+
+(* top-k is the rank condition of the docstring: the target is counted iff fewer than
+   k classes precede it, where class j precedes class t iff its score is higher, or
+   equal with a lower index (all k, all score vectors over Z u {-inf,+inf}) *)
+Theorem C14_topk_is_rank : forall k (s : list ext) t, (t < length s)%nat ->
+  topk_correct k s (Z.of_nat t) = b2z (Z.of_nat (rank s t) <? k).
+Proof. exact topk_is_rank. Qed.
+
 (* non-vacuity: the docstring examples and a tie *)
 Example C14_example :
   m_topk 2 [0; 5; 2] 2 = (1, 1) /\ m_topk (-2) [0; 5; 2] 1 = (0, 1) /\
@@ -110,7 +139,8 @@ Example C14_example :
   m_seq_oov [2; 4] [0] false [1; 2; 2; 3; 4; 0; 0] = [(3, 5)] /\
   m_confusion 3 [0; 1; 0] 2 = Some [[0; 0; 0]; [0; 0; 0]; [0; 1; 0]] /\
   m_seq_trunc 4 [0] [1; 2; 2; 3; 3; 3; 3] = (1, 1) /\ m_seq_length [0] [1; 2; 3; 4; 0; 0] = (4, 1) /\
-  per_domain 3 1 (0, 0) (1, 1) = [(0, 0); (1, 1); (0, 0)].
+  per_domain 3 1 (0, 0) (1, 1) = [(0, 0); (1, 1); (0, 0)] /\
+  rank [Fin 1; PInf; Fin 1; NInf; PInf] 2 = 3%nat /\ gen_topk 4 2 [1; 9; 1; 0; 9] = (1, 1) /\ gen_topk 3 2 [1; 9; 1; 0; 9] = (0, 1).
 Proof. vm_compute. repeat split. Qed.
 
 Print Assumptions C14_top1_eq_accuracy.
@@ -122,3 +152,5 @@ Print Assumptions C14_confusion_trace_is_accuracy.
 Print Assumptions C14_per_domain_restricts.
 Print Assumptions C14_sequence_weights.
 Print Assumptions C14_oov_rate_counts_any_oov_value.
+Print Assumptions C14_translated_metrics_are_model.
+Print Assumptions C14_topk_is_rank.
